@@ -60,14 +60,17 @@ def render(js, cfg):
         return ('err', type(e).__name__)
 
 
-def model_render_line(js, cfg):
-    dt = cfg.get('doctype')
+def doctype_wire(dt):
+    """the doctype option on the wire: N | ( name n ) | ( tuple name pubid|N sysid|N )"""
     if dt is None:
-        d = N
-    elif dt[0] == 'name':
-        d = [Atom('name'), dt[1]]
-    else:
-        d = [Atom('tuple'), dt[1], N if dt[2] is None else dt[2], N if dt[3] is None else dt[3]]
+        return N
+    if dt[0] == 'name':
+        return [Atom('name'), dt[1]]
+    return [Atom('tuple'), dt[1], N if dt[2] is None else dt[2], N if dt[3] is None else dt[3]]
+
+
+def model_render_line(js, cfg):
+    d = doctype_wire(cfg.get('doctype'))
     return proto.line(Atom('C09'), Atom('render'), Atom(cfg['method']), B(cfg['strip']), B(cfg['cache']),
                       B(cfg['drop_xml_decl']), d, G.to_wire(js))
 
